@@ -75,8 +75,19 @@ def run(tier, seed):
     wd = common.tmpdir("c07_")
     lits = sr.source_literals()
     cases, coq, violations, samples, seen = [], [], [], [], set()
-    dist = {"h5": 0, "npy": 0, "thin>1": 0, "rwmh": 0, "hmc": 0, "single_column": 0, "overwrites_earlier_file": 0, "sampler_reused": 0}
+    dist = {"h5": 0, "npy": 0, "thin>1": 0, "rwmh": 0, "hmc": 0, "single_column": 0, "overwrites_earlier_file": 0, "sampler_reused": 0, "long_runs": 0}
     try:
+        # one long chain per back end, written quickly: the write buffer of the samples file grows past 1024 columns
+        for be in ("h5", "npy"):
+            cfgL = sr.gen_run(rnd, kind="rwmh", thin=1, tune=False, maxP=2400, special=0.0)
+            cfgL["P"] = 2400
+            cfgL["zs"] = [[rnd.randint(-48, 48) / 16.0 for _ in range(cfgL["d"])] for _ in range(2400)]
+            cfgL["us"] = [rnd.randint(0, 1023) / 1024.0 for _ in range(2400)]
+            cfgL["backend"] = be
+            rL = sr.run_impl(cfgL, wd, tag="long")
+            dist["long_runs"] += 1
+            for key, what in spec_oracle(cfgL, rL, None):
+                violations.append(Violation(key, what, {"case": cfgL, "long_run": True}))
         for i in range(n):
             t = rnd.choice([1, 2, 3, 4, 5, 6])
             cfg = sr.gen_run(rnd, thin=t, maxP=(12 if tier == "quick" else 60))
@@ -132,7 +143,7 @@ def run(tier, seed):
     return {
         "evaluations": n, "distinct_nontrivial": len(seen),
         "rule": "seeded complete runs, thinning t in 1..6 with t | P, alternating HDF5/NPY back ends, RWMH and HMC, 40% over an earlier file at the same path, 30% on a sampler "
-                "object that already made a run; each thinned "
+                "object that already made a run, two chains of 2400 proposals (statement oracle only); each thinned "
                 "run is repeated unthinned with the same scripted random numbers; non-trivial = t > 1 and at least one accepted proposal",
         "samples": samples, "violations": violations,
         "traces_validated_against_impl": len(idx) - len(bad),
